@@ -12,6 +12,9 @@ HOOK_FLAGS = "--cfg rs_tftpd_verif"
 class MachineryError(Exception):
     pass
 
+class SourceMoved(Exception):
+    """/repo's sources changed while a check was running: the decision is started again."""
+
 def log(msg):
     print(f"[check] {msg}", flush=True)
 
@@ -118,14 +121,28 @@ def build_harness(profile="debug"):
     cmd = ["cargo", "build", "--offline", "--target-dir", os.path.join(BUILD, "target")]
     if profile == "release":
         cmd.append("--release")
+    h0 = file_hash(repo_files())
     p = sh(cmd, cwd=hdir, env=env, timeout=1200, check=False)
+    if file_hash(repo_files()) != h0:
+        raise SourceMoved()
     if p.returncode != 0:
         raise MachineryError("harness does not build against the current tree:\n" + p.stdout[-3000:])
+    BUILT["harness-" + profile] = h0
+
+BUILT = {}   # what the binaries of this process were built from
+
+def assert_built_from_current(what):
+    """The binary about to run was built from the sources as they are now (else the decision starts again)."""
+    if what in BUILT and BUILT[what] != file_hash(repo_files()):
+        raise SourceMoved()
 
 def build_repo_bins():
     """The real tftpd / tftpc binaries of the current tree (no hooks)."""
     tgt = os.path.join(BUILD, "repo-target")
+    h0 = file_hash(repo_files())
     p = sh(["cargo", "build", "--offline", "--features", "client", "--bins", "--target-dir", tgt], cwd=REPO, timeout=1200, check=False)
+    if file_hash(repo_files()) != h0:
+        raise SourceMoved()
     if p.returncode != 0:
         raise MachineryError("repository binaries do not build:\n" + p.stdout[-3000:])
     return os.path.join(tgt, "debug", "tftpd"), os.path.join(tgt, "debug", "tftpc")
@@ -186,6 +203,7 @@ def run_suite(suite, seed, tier, count, extra_cases=None, timeout=None, profile=
     if timeout is None:
         # an implementation that hangs must not stall the check for long: unfinished cases read "<missing>"
         timeout = 420 if tier == "quick" else 3000
+    assert_built_from_current("harness-" + profile)
     key = suite_cache_key(suite, seed, tier, count) + ("-" + profile if profile != "debug" else "")
     cdir = os.path.join(BUILD, "cache", key)
     done = os.path.join(cdir, "done.json")
@@ -254,6 +272,7 @@ def run_suite(suite, seed, tier, count, extra_cases=None, timeout=None, profile=
             except OSError:
                 pass
         shutil.rmtree(base + ".scratch", ignore_errors=True)
+    assert_built_from_current("harness-" + profile)   # nothing is cached under a key the results do not belong to
     with open(done, "w") as f:
         json.dump({"suite": suite, "n": total}, f)
     prune_cache()
